@@ -14,6 +14,10 @@ def make_image(B, work, comp):
     for i in range(60):
         t[b"d%d" % (i % 5)] = Node("dir", 0o755, xattrs={b"user.d": b"%d" % (i % 5)})
         t[b"d%d/f%02d" % (i % 5, i)] = Node("file", 0o644, data=[("rand", i, 100 + 700 * i)], xattrs={b"user.k": b"v%d" % (i % 9), b"trusted.long": b"L" * 50} if i % 2 else {})
+    # more than 2 x 512 distinct attribute sets, so the xattr id table spans several metadata blocks
+    t[b"x"] = Node("dir", 0o755)
+    for i in range(1100):
+        t[b"x/e%04d" % i] = Node("file", 0o644, data=[], xattrs={b"user.n": b"%d" % i})
     t[b"big"] = Node("file", 0o644, data=[("rep", b"0123456789", 5 * 4096 + 17)])
     t[b"sparse"] = Node("file", 0o644, data=[("zero", 8192), ("bytes", b"end")])
     root = os.path.join(work, "in")
